@@ -120,14 +120,15 @@ type vWorld struct {
 	interleave                                    func()
 	// effectProbe returns the swap whose transition is being observed; at every external effect (send,
 	// broadcast, payment, spend) the stubs compare the stored record with it (noteEffect)
-	effectProbe   func() *SwapStateMachine
-	effectsSeen   int
-	storeFailed   bool
-	spendAttempts int
-	effectStale   bool
-	staleAt       string
-	interleaved   bool
-	yieldAt       string
+	effectProbe    func() *SwapStateMachine
+	effectsSeen    int
+	storeFailed    bool
+	lastTimeoutCtx context.Context
+	spendAttempts  int
+	effectStale    bool
+	staleAt        string
+	interleaved    bool
+	yieldAt        string
 	// narrowOffset is added to the pinned height ("the chain has advanced by this much")
 	narrowOffset uint32
 }
@@ -555,6 +556,7 @@ func (t *vTimeouts) addNewTimeOut(ctx context.Context, d time.Duration, id strin
 	t.w.timeouts++
 	t.w.timeoutsArmed++
 	t.w.lastTimeout = d
+	t.w.lastTimeoutCtx = ctx // the real timer is stopped by cancelling this context
 	zzverif.Effect("arm_timeout", id, int64(d))
 }
 
